@@ -277,6 +277,13 @@ func runGlue(r *Rng, st *Stats, n int, tier string) {
 		}
 	}
 	projects = append(projects, scenarioMissingEntries(r))
+	nSib := 2
+	if tier == "thorough" {
+		nSib = 6
+	}
+	for i := 0; i < nSib; i++ {
+		projects = append(projects, scenarioSiblings(r))
+	}
 	rootsA := make([]string, len(projects))
 	rootsB := make([]string, len(projects))
 	for i, p := range projects {
@@ -290,6 +297,9 @@ func runGlue(r *Rng, st *Stats, n int, tier string) {
 	for i := range projects {
 		a := r.Intn(len(variants))
 		b := (a + 1 + r.Intn(len(variants)-1)) % len(variants)
+		if projects[i].Kind == "shared-chunk-siblings" {
+			a, b = 0, 1 // the splitting variants
+		}
 		projVariants[i] = []int{a, b}
 	}
 
@@ -384,10 +394,20 @@ func runGlue(r *Rng, st *Stats, n int, tier string) {
 			section, want, got := firstDiff(ref.out, j.out)
 			what := "nondeterministic-build"
 			if j.sched.Location == "B" && again.out == j.out {
-				// could be a pure location dependence: compare with a plain build at B
-				plainB := &job{proj: j.proj, variant: j.variant, sched: schedule{Procs: 16, Location: "B", Siblings: 1}}
-				run(plainB)
-				if plainB.out != ref.out {
+				// a pure location dependence? three plain builds at A and at B each
+				isLoc := true
+				var firstB string
+				for k := 0; k < 3 && isLoc; k++ {
+					pa := &job{proj: j.proj, variant: j.variant, sched: schedule{Procs: 16, Location: "A", Siblings: 1}}
+					pb := &job{proj: j.proj, variant: j.variant, sched: schedule{Procs: 16, Location: "B", Siblings: 1}}
+					run(pa)
+					run(pb)
+					if k == 0 {
+						firstB = pb.out
+					}
+					isLoc = pa.out == ref.out && pb.out == firstB && pb.out != ref.out
+				}
+				if isLoc {
 					what = "build-depends-on-absolute-location"
 				}
 			}
